@@ -88,7 +88,7 @@ Print Assumptions C10_requirement_hash.
 (* Tag: equality is equality of the three lower-cased fields (case-insensitive), for any stored hash function *)
 Theorem C10_tag_eq_is_field_eq h i a p i' a' p' :
   WheelModel.tag_eq h (WheelModel.mk_tag i a p) (WheelModel.mk_tag i' a' p') = true <->
-  VMeaning.py_lower i = VMeaning.py_lower i' /\ VMeaning.py_lower a = VMeaning.py_lower a' /\ VMeaning.py_lower p = VMeaning.py_lower p'.
+  NamesX.lower_full i = NamesX.lower_full i' /\ NamesX.lower_full a = NamesX.lower_full a' /\ NamesX.lower_full p = NamesX.lower_full p'.
 Proof. exact (C14.C14_tag_case_insensitive h i a p i' a' p'). Qed.
 Print Assumptions C10_tag_eq_is_field_eq.
 (* ... hence == on tags is an equivalence, and equal tags carry the same stored hash *)
